@@ -126,14 +126,19 @@ def selftest(prop: str, repo: str, base: set[str], read_set: set[str] | None = N
     except OSError:
         index = {}
     todo = [(tag, v) for tag, v in sorted(index.items()) if prop in v.get("by", [])]
+    # default scope: the variants written against this property and the reversed fixes it
+    # reports (a variant also reported by a neighbouring property is replayed by its own
+    # property's check); VERIF_SELFTEST_SCOPE=all replays every variant this check detects
+    if os.environ.get("VERIF_SELFTEST_SCOPE", "own") != "all":
+        todo = [(tag, v) for tag, v in todo if tag.startswith(prop) or tag.startswith("fix-")]
     out: dict = {"must_fire": [], "twin": None}
     with cf.ThreadPoolExecutor(8) as ex:
         futs = [ex.submit(_variant, prop, repo, tag, os.path.join(VERIF, v["patch"]), bool(v.get("reverse")), base) for tag, v in todo]
         tw = ex.submit(_twin, prop, repo, base)
         rfdir = os.path.join(VERIF, "selftest", "refactors")
-        # the thorough tier replays the two newest rounds of refactoring sets (tools/silent_check.py
-        # replays all of them); VERIF_REFACTOR_ROUNDS=all or a comma list changes that
-        rounds = os.environ.get("VERIF_REFACTOR_ROUNDS", "RJ,RK")
+        # refactoring sets are replayed by tools/silent_check.py (all 60 sets x 39 checks); the thorough
+        # tier replays the rounds named in VERIF_REFACTOR_ROUNDS (`all` or a comma list, default none)
+        rounds = os.environ.get("VERIF_REFACTOR_ROUNDS", "")
         names = [f for f in sorted(os.listdir(rfdir)) if f.endswith(".diff") and (rounds == "all" or f.split("_")[0] in rounds.split(","))] if os.path.isdir(rfdir) else []
         rfs = [ex.submit(_refactor, prop, repo, f[:-5], os.path.join(rfdir, f), base, read_set) for f in names]
         out["must_fire"] = [f.result() for f in futs]
